@@ -105,6 +105,9 @@ func (p *Packet) MarshalBinary() ([]byte, error) {
 	if p.Header.Length > MaxBodyLength {
 		return nil, fmt.Errorf("indicated size is too large to marshal; max allowed [%v] reported [%v]", MaxBodyLength, p.Header.Length)
 	}
+	if int(p.Header.Length) != len(p.Body) {
+		return nil, fmt.Errorf("header length [%v] does not match the body length [%v]", p.Header.Length, len(p.Body))
+	}
 	head, err := p.Header.MarshalBinary()
 	if err != nil {
 		return nil, err
